@@ -262,6 +262,15 @@ func createEntry(key any, keyID string) (*Entry, error) {
 			"unsupported key type; only rsa and ecdsa keys are supported")
 	}
 
+	// Entry.JWK() panics on any other size
+	switch {
+	case algorithm == AlgRSA && (size == rsa2048 || size == rsa3072 || size == rsa4096):
+	case algorithm == AlgECDSA && (size == ecdsa256 || size == ecdsa384 || size == ecdsa512):
+	default:
+		return nil, errorchain.NewWithMessagef(heimdall.ErrConfiguration,
+			"unsupported %s key size: %d", algorithm, size)
+	}
+
 	return &Entry{
 		KeyID:      keyID,
 		Alg:        algorithm,
